@@ -211,7 +211,7 @@ CHECKS = {
         category='model_checking',
         text=('The specification contains the reference language twice: a printer (structured reference -> text: optional word / quoted title prefix, $ '
               'markers, bijective base-26 column letters, rows, cell / area / whole-column forms) and a character-level parser of reference text, plus the '
-              'denotation (coordinates in row-major order; the formula's own sheet without prefix; whole columns over the used rows). TLC enumerates '
+              'denotation (coordinates in row-major order; the own sheet of the formula without prefix; whole columns over the used rows). TLC enumerates '
               'references over columns A..XFD x rows 1..99999 x shapes x prefixes x $ combinations x own sheet and checks on every one RoundTrip (parse(print) '
               '= reference) and AreaCardinality (size, strict row-major order, single sheet). Binding: each reference is read through =ref, INDEX at every '
               'position, SUM, COUNT, SUMIFS, VLOOKUP / MATCH argument positions on a three-sheet workbook whose cells hold numbers encoding their own '
